@@ -11,6 +11,7 @@
 -/
 import RdfModel.Props.C16TtlDocODefs
 import RdfModel.Proofs.C16TtlErr
+import RdfModel.Proofs.C16TtlDocOInv
 namespace RdfModel.Proofs.C16TtlDocO
 section producers
 open RdfModel RdfModel.TW RdfModel.NQO RdfModel.TtlO
@@ -158,5 +159,1089 @@ theorem producePrefixedName_errP (T : Tables) (e : End) (trig : Bool) (s : S) (i
       simp at this ⊢; omega
 
 end producers
+
+section statements
+open RdfModel RdfModel.TW RdfModel.NQO RdfModel.TtlDoc RdfModel.TtlDocO RdfModel.C16TtlDocO
+open RdfModel.Proofs.C16Ttl RdfModel.Proofs.C16 RdfModel.C16
+
+@[simp] theorem bo_read (s : S) (c : RP) : (s.read c).bo = s.bo + c.2 := rfl
+@[simp] theorem bo_readL (s : S) (l : List RP) : (readL s l).bo = s.bo + size l := rfl
+@[simp] theorem bo_commit (s : S) (ch : Chunk) : (s.commit ch).bo = s.bo := rfl
+@[simp] theorem doc_read (s : S) (c : RP) : (s.read c).doc = s.doc := rfl
+@[simp] theorem doc_readL (s : S) (l : List RP) : (readL s l).doc = s.doc := rfl
+
+/-- bound of a range error -/
+def RgB (rg : Rg) (n : Nat) : Prop := EOff.bound (rangeErr rg) ≤ n
+
+theorem rgB_none (n : Nat) : RgB none n := Nat.zero_le _
+
+/-- a producer call: byte accounting and `Pend` for a success, bound for an error -/
+def ROB {α : Type} (s : S) (inp : List RP) (r : TtlO.RO α) : Prop :=
+  (∀ v rg s' rest, r = .ok v rg s' rest →
+    s'.bo + size rest = s.bo + size inp ∧ Pend s' 0 ∧ RgB rg (s.bo + size inp)) ∧
+  (∀ c o, r = .err c o → EOff.bound o ≤ s.bo + size inp)
+
+theorem oneChunk_B {s s' : S} {inp tok rest : List RP} {rg : Rg} (hP : Pend s 0)
+    (h : OneChunk s inp tok rg s' rest) :
+    s'.bo + size rest = s.bo + size inp ∧ Pend s' 0 ∧ RgB rg (s.bo + size inp) := by
+  obtain ⟨rfl, rfl, rfl⟩ := h
+  refine ⟨by simp; omega, ?_, ?_⟩
+  · intro h' hd
+    cases hs : s.doc with
+    | none => simp [hs] at hd
+    | some d =>
+      simp only [hs, Option.map_some, Option.some.injEq] at hd
+      subst hd
+      have := hP d hs
+      simp [histRunes]; omega
+  · cases hs : s.doc with
+    | none => simp [RgB, rangeErr, EOff.bound]
+    | some d =>
+      have := hP d hs
+      simp [RgB, rangeErr, EOff.bound, histRunes]; omega
+
+theorem twoChunk_B {w : Bool} {s s' : S} {inp pre body rest : List RP} {rg : Rg} (hP : Pend s 0)
+    (h : TwoChunk w s inp pre body rg s' rest) :
+    s'.bo + size rest = s.bo + size inp ∧ Pend s' 0 ∧ RgB rg (s.bo + size inp) := by
+  obtain ⟨rfl, rfl, rfl⟩ := h
+  refine ⟨by simp; omega, ?_, ?_⟩
+  · intro h' hd
+    cases hs : s.doc with
+    | none => simp [hs] at hd
+    | some d =>
+      simp only [hs, Option.map_some, Option.some.injEq] at hd
+      subst hd
+      have := hP d hs
+      simp [histRunes]; omega
+  · cases hs : s.doc with
+    | none => simp [RgB, rangeErr, EOff.bound]
+    | some d =>
+      have := hP d hs
+      cases w <;> simp [RgB, rangeErr, EOff.bound, histRunes] <;> omega
+
+theorem iriref_ROB (T : Ttl.Tables) (e : End) {s : S} (hP : Pend s 0) (inp : List RP) :
+    ROB s inp (TtlO.produceIRIREF T e s inp) :=
+  ⟨fun v rg s' rest h => by
+      obtain ⟨tok, h1, _⟩ := produceIRIREF_ok _ _ _ _ _ _ _ _ h
+      exact oneChunk_B hP h1,
+   fun c o h => produceIRIREF_errP _ _ _ _ _ _ hP h⟩
+
+theorem string_ROB (T : Ttl.Tables) (e : End) {s : S} (hP : Pend s 0) (inp : List RP) :
+    ROB s inp (TtlO.produceString T e false s inp) :=
+  ⟨fun v rg s' rest h => by
+      obtain ⟨tok, q, h1, _⟩ := produceString_ok _ _ _ _ _ _ _ _ h
+      exact oneChunk_B hP h1,
+   fun c o h => produceString_errP _ _ _ _ _ _ hP h⟩
+
+theorem pnameNS_ROB (T : Ttl.Tables) (e : End) (trig : Bool) {s : S} (hP : Pend s 0) (inp : List RP) :
+    ROB s inp (TtlO.producePNAME_NS T e trig s inp) :=
+  ⟨fun v rg s' rest h => by
+      obtain ⟨tok, h1, _⟩ := producePNAME_NS_ok _ _ _ _ _ _ _ _ _ h
+      exact oneChunk_B hP h1,
+   fun c o h => producePNAME_NS_errP _ _ _ _ _ _ _ hP h⟩
+
+theorem pname_ROB (T : Ttl.Tables) (e : End) (trig : Bool) {s : S} (hP : Pend s 0) (inp : List RP) :
+    ROB s inp (TtlO.producePrefixedName T e trig s inp) :=
+  ⟨fun v rg s' rest h => by
+      obtain ⟨a, b, h1, _⟩ := producePrefixedName_ok _ _ _ _ _ _ _ _ _ h
+      exact twoChunk_B hP h1,
+   fun c o h => producePrefixedName_errP _ _ _ _ _ _ _ hP h⟩
+
+theorem bnode_ROB (T : Ttl.Tables) (e : End) {s : S} (hP : Pend s 0) (inp : List RP) :
+    ROB s inp (TtlO.produceBlankNode T e false s inp) :=
+  ⟨fun v rg s' rest h => by
+      obtain ⟨c0, c1, lab, h1, _⟩ := produceBlankNode_ok _ _ _ _ _ _ _ _ _ h
+      exact twoChunk_B hP h1,
+   fun c o h => produceBlankNode_errP _ _ _ _ _ _ _ hP h⟩
+
+theorem langtag_ROB (e : End) {s : S} (hP : Pend s 0) (inp : List RP) :
+    ROB s inp (TtlO.produceLANGTAG e s inp) :=
+  ⟨fun v rg s' rest h => by
+      obtain ⟨a0, tag, h1, _⟩ := produceLANGTAG_ok _ _ _ _ _ _ _ h
+      exact twoChunk_B hP h1,
+   fun c o h => produceLANGTAG_errP _ _ _ _ _ hP h⟩
+
+theorem numeric_ROB (e : End) {s : S} (hP : Pend s 0) (inp : List RP) :
+    ROB s inp (TtlO.produceNumericLiteral e s inp) :=
+  ⟨fun v rg s' rest h => by
+      obtain ⟨tok, h1, _⟩ := produceNumericLiteral_ok _ _ _ _ _ _ _ h
+      exact oneChunk_B hP h1,
+   fun c o h => produceNumericLiteral_errP _ _ _ _ _ hP h⟩
+
+def IriB (s : S) (inp : List RP) (r : IriResO) : Prop :=
+  (∀ i rg s' rest, r = .ok i rg s' rest → s'.bo + size rest = s.bo + size inp ∧ Pend s' 0) ∧
+  (∀ c o, r = .err c o → EOff.bound o ≤ s.bo + size inp)
+
+def TermB (s : S) (inp : List RP) (r : TermResO) : Prop :=
+  (∀ t rg s' rest env', r = .ok t rg s' rest env' → s'.bo + size rest = s.bo + size inp ∧ Pend s' 0) ∧
+  (∀ c o, r = .err c o → EOff.bound o ≤ s.bo + size inp)
+
+/-- a scan function: byte accounting and `Pend` when it returns normally, bound when it fails -/
+def StepB (s : S) (inp : List RP) (res : FnResO) : Prop :=
+  (∀ o, res = .ok o → o.s.bo + size o.inp = s.bo + size inp ∧ Pend o.s 0) ∧
+  (∀ k eo, res = .err k eo → EOff.bound eo ≤ s.bo + size inp)
+
+theorem stepB_ok {s : S} {inp : List RP} {o : OutO} (h1 : o.s.bo + size o.inp = s.bo + size inp)
+    (h2 : Pend o.s 0) : StepB s inp (.ok o) :=
+  ⟨fun o' h => (by cases h; exact ⟨h1, h2⟩), fun k eo h => (by cases h)⟩
+
+theorem stepB_err {s : S} {inp : List RP} {k : TtlDoc.EClass} {eo : EOff} (h : EOff.bound eo ≤ s.bo + size inp) :
+    StepB s inp (.err k eo) :=
+  ⟨fun o' h => (by cases h), fun k' eo' h' => (by cases h'; exact h)⟩
+
+theorem stepB_errNone (s : S) (inp : List RP) (k : TtlDoc.EClass) : StepB s inp (.err k .none) :=
+  stepB_err (Nat.zero_le _)
+
+theorem stepB_panic (s : S) (inp : List RP) : StepB s inp .panic :=
+  ⟨fun o' h => (by cases h), fun k' eo' h' => (by cases h')⟩
+
+theorem iriIRIREFO_B (C : CfgO) (e : End) (env : Env) {s : S} (hP : Pend s 0) (inp : List RP) :
+    IriB s inp (iriIRIREFO C e env s inp) := by
+  obtain ⟨h1, h2⟩ := iriref_ROB C.T e hP inp
+  unfold iriIRIREFO
+  cases hp : TtlO.produceIRIREF C.T e s inp with
+  | panic => exact ⟨fun _ _ _ _ h => (by cases h), fun _ _ h => (by cases h)⟩
+  | err c o => exact ⟨fun _ _ _ _ h => (by cases h), fun _ _ h => (by cases h; exact h2 _ _ hp)⟩
+  | ok v rg s' rest =>
+    obtain ⟨g1, g2, g3⟩ := h1 _ _ _ _ hp
+    simp only []
+    cases resolveIRI C.base env v with
+    | none => exact ⟨fun _ _ _ _ h => (by cases h), fun _ _ h => (by cases h; exact g3)⟩
+    | some i => exact ⟨fun _ _ _ _ h => (by cases h; exact ⟨g1, g2⟩), fun _ _ h => (by cases h)⟩
+
+theorem iriPNameO_B (C : CfgO) (e : End) (env : Env) {s : S} (hP : Pend s 0) (inp : List RP) :
+    IriB s inp (iriPNameO C e env s inp) := by
+  obtain ⟨h1, h2⟩ := pname_ROB C.T e C.trig hP inp
+  unfold iriPNameO
+  cases hp : TtlO.producePrefixedName C.T e C.trig s inp with
+  | panic => exact ⟨fun _ _ _ _ h => (by cases h), fun _ _ h => (by cases h)⟩
+  | err c o => exact ⟨fun _ _ _ _ h => (by cases h), fun _ _ h => (by cases h; exact h2 _ _ hp)⟩
+  | ok v rg s' rest =>
+    obtain ⟨ns, loc⟩ := v
+    obtain ⟨g1, g2, g3⟩ := h1 _ _ _ _ hp
+    simp only []
+    cases env.expand ns loc with
+    | none => exact ⟨fun _ _ _ _ h => (by cases h), fun _ _ h => (by cases h; exact g3)⟩
+    | some i => exact ⟨fun _ _ _ _ h => (by cases h; exact ⟨g1, g2⟩), fun _ _ h => (by cases h)⟩
+
+theorem toTerm_B {s : S} {inp : List RP} {r : IriResO} (h : IriB s inp r) (env : Env) :
+    TermB s inp (r.toTerm env) := by
+  cases r with
+  | ok i rg s' rest => exact ⟨fun _ _ _ _ _ g => (by cases g; exact h.1 _ _ _ _ rfl), fun _ _ g => (by cases g)⟩
+  | err c o => exact ⟨fun _ _ _ _ _ g => (by cases g), fun _ _ g => (by cases g; exact h.2 _ _ rfl)⟩
+  | panic => exact ⟨fun _ _ _ _ _ g => (by cases g), fun _ _ g => (by cases g)⟩
+
+theorem termIRIREFO_B (C : CfgO) (e : End) (env : Env) {s : S} (hP : Pend s 0) (inp : List RP) :
+    TermB s inp (termIRIREFO C e env s inp) := toTerm_B (iriIRIREFO_B C e env hP inp) env
+
+theorem termPNameO_B (C : CfgO) (e : End) (env : Env) {s : S} (hP : Pend s 0) (inp : List RP) :
+    TermB s inp (termPNameO C e env s inp) := toTerm_B (iriPNameO_B C e env hP inp) env
+
+theorem termBNodeO_B (C : CfgO) (e : End) (env : Env) {s : S} (hP : Pend s 0) (inp : List RP) :
+    TermB s inp (termBNodeO C e env s inp) := by
+  obtain ⟨h1, h2⟩ := bnode_ROB C.T e hP inp
+  unfold termBNodeO
+  cases hp : TtlO.produceBlankNode C.T e false s inp with
+  | panic => exact ⟨fun _ _ _ _ _ h => (by cases h), fun _ _ h => (by cases h)⟩
+  | err c o => exact ⟨fun _ _ _ _ _ h => (by cases h), fun _ _ h => (by cases h; exact h2 _ _ hp)⟩
+  | ok v rg s' rest =>
+    obtain ⟨g1, g2, _⟩ := h1 _ _ _ _ hp
+    exact ⟨fun _ _ _ _ _ h => (by cases h; exact ⟨g1, g2⟩), fun _ _ h => (by cases h)⟩
+
+/-- the continuation helpers: the result's bookkeeping is the token's -/
+theorem ofTerm_B {s : S} {inp : List RP} {r : TermResO} (ht : TermB s inp r) (F : TermResO → FnResO)
+    (hF : ∀ t rg s' rest env', ∃ o, F (.ok t rg s' rest env') = .ok o ∧ o.s = s' ∧ o.inp = rest)
+    (hE : ∀ c o, F (.err c o) = .err c o) (hPn : F .panic = .panic) : StepB s inp (F r) := by
+  cases r with
+  | ok t rg s' rest env' =>
+    obtain ⟨o, h1, h2, h3⟩ := hF t rg s' rest env'
+    obtain ⟨g1, g2⟩ := ht.1 _ _ _ _ _ rfl
+    rw [h1]
+    exact stepB_ok (by rw [h2, h3]; exact g1) (by rw [h2]; exact g2)
+  | err c o => rw [hE]; exact stepB_err (ht.2 _ _ rfl)
+  | panic => rw [hPn]; exact stepB_panic _ _
+
+theorem subjectOfO_B {s : S} {inp : List RP} (x : EctxO) {r : TermResO} (ht : TermB s inp r) :
+    StepB s inp (subjectOfO x r) :=
+  ofTerm_B ht (subjectOfO x) (fun _ _ _ _ _ => ⟨_, rfl, rfl, rfl⟩) (fun _ _ => rfl) rfl
+
+theorem labelOrSubjectO_B {s : S} {inp : List RP} (x : EctxO) {r : TermResO} (ht : TermB s inp r) :
+    StepB s inp (labelOrSubjectO x r) :=
+  ofTerm_B ht (labelOrSubjectO x) (fun _ _ _ _ _ => ⟨_, rfl, rfl, rfl⟩) (fun _ _ => rfl) rfl
+
+theorem polOfTermO_B {s : S} {inp : List RP} (x : EctxO) {r : TermResO} (ht : TermB s inp r) :
+    StepB s inp (polOfTermO x r) :=
+  ofTerm_B ht (polOfTermO x) (fun _ _ _ _ _ => ⟨_, rfl, rfl, rfl⟩) (fun _ _ => rfl) rfl
+
+theorem emitOfTermO_B {s : S} {inp : List RP} (x : EctxO) {r : TermResO} (ht : TermB s inp r) :
+    StepB s inp (emitOfTermO x r) :=
+  ofTerm_B ht (emitOfTermO x) (fun _ _ _ _ _ => ⟨_, rfl, rfl, rfl⟩) (fun _ _ => rfl) rfl
+
+/-- `Pend` after reading some runes and committing at most as many bytes -/
+macro "pend_tac" hP:ident s:ident : tactic => `(tactic| (
+  intro hh hd
+  simp only [S.commit, S.read, readL, Option.map_map] at hd
+  cases hs : S.doc $s with
+  | none => simp [hs] at hd
+  | some d =>
+    have := $hP d hs
+    simp only [hs, Option.map_some, Option.some.injEq, Function.comp] at hd
+    subst hd
+    simp [histRunes, S.commit, S.read, readL] at this ⊢
+    omega))
+
+/-- bound of an error raised right here by `newOffsetError` -/
+macro "err_tac" hP:ident : tactic => `(tactic| (
+  apply stepB_err
+  apply bound_offErr
+  · intro hh hd
+    have := $hP hh (by simpa using hd)
+    simp at this ⊢
+    omega
+  · simp
+    try omega))
+
+macro "ok_tac" hP:ident s:ident : tactic => `(tactic| (
+  apply stepB_ok
+  · simp
+    try omega
+  · first | exact $hP | pend_tac $hP $s))
+
+theorem withSelfO_B {s : S} {inp : List RP} (x : EctxO) {r : FnResO} (h : StepB s inp r) :
+    StepB s inp (withSelfO x r) := by
+  cases r with
+  | ok o => exact ⟨fun o' g => (by cases g; exact h.1 o rfl), fun _ _ g => (by cases g)⟩
+  | err c o => exact h
+  | panic => exact h
+
+theorem kwFallbackO_B (C : CfgO) (e : End) (x : EctxO) (env : Env) {s : S} (hP : Pend s 0) (inp : List RP) :
+    StepB s inp (kwFallbackO C e x env s inp) := by
+  unfold kwFallbackO
+  split
+  · exact labelOrSubjectO_B x (termPNameO_B C e env hP inp)
+  · ok_tac hP s
+
+theorem stepWrappedGraphO_B (dbl : Bool) (e : End) (x : EctxO) (env : Env) {s : S} (hP : Pend s 0) (c : RP) (rest : List RP) :
+    StepB s (c :: rest) (stepWrappedGraphO dbl e x env s (.rune c rest)) := by
+  simp only [stepWrappedGraphO]
+  split
+  · err_tac hP
+  · ok_tac hP s
+
+theorem size_dropLast_le : ∀ (l : List RP), size l.dropLast ≤ size l
+  | [] => by simp
+  | [a] => by simp
+  | a :: b :: l => by
+    have := size_dropLast_le (b :: l)
+    simp only [List.dropLast_cons_cons, size_cons] at this ⊢
+    omega
+
+theorem matchKwO_sz : ∀ (ks : List (Nat × Nat)) (inp acc : List RP),
+    (∀ rd r, matchKwO ks inp acc = .ok rd r → size rd + size r = size acc + size inp) ∧
+    (∀ rd, matchKwO ks inp acc = .eoi rd → size rd = size acc + size inp) ∧
+    (∀ rd c, matchKwO ks inp acc = .mismatch rd c → size rd + c.2 ≤ size acc + size inp)
+  | [], inp, acc => by
+    refine ⟨?_, ?_, ?_⟩ <;> intros <;> simp_all [matchKwO] <;>
+      (try (rename_i h; first | (obtain ⟨rfl, rfl⟩ := h; simp) | (subst h; simp)))
+  | _ :: _, [], acc => by
+    refine ⟨?_, ?_, ?_⟩ <;> intros <;> simp_all [matchKwO] <;>
+      (try (rename_i h; first | (obtain ⟨rfl, rfl⟩ := h; simp) | (subst h; simp)))
+  | (u, l) :: ks, c :: rest, acc => by
+    have ih := matchKwO_sz ks rest (c :: acc)
+    simp only [matchKwO]
+    split
+    · refine ⟨fun rd r h => ?_, fun rd h => ?_, fun rd c' h => ?_⟩
+      · have := ih.1 rd r h; simp at this ⊢; omega
+      · have := ih.2.1 rd h; simp at this ⊢; omega
+      · have := ih.2.2 rd c' h; simp at this ⊢; omega
+    · refine ⟨fun rd r h => (by cases h), fun rd h => (by cases h), fun rd c' h => ?_⟩
+      simp only [KwO.mismatch.injEq] at h
+      obtain ⟨rfl, rfl⟩ := h
+      simp
+
+theorem matchKeywordO_sz : ∀ (ks : List Nat) (inp acc : List RP),
+    (∀ rd r, matchKeywordO ks inp acc = .ok rd r → size rd + size r = size acc + size inp) ∧
+    (∀ rd, matchKeywordO ks inp acc = .eoi rd → size rd = size acc + size inp) ∧
+    (∀ rd c, matchKeywordO ks inp acc = .mismatch rd c → size rd + c.2 ≤ size acc + size inp)
+  | [], inp, acc => by
+    refine ⟨?_, ?_, ?_⟩ <;> intros <;> simp_all [matchKeywordO] <;>
+      (try (rename_i h; first | (obtain ⟨rfl, rfl⟩ := h; simp) | (subst h; simp)))
+  | _ :: _, [], acc => by
+    refine ⟨?_, ?_, ?_⟩ <;> intros <;> simp_all [matchKeywordO] <;>
+      (try (rename_i h; first | (obtain ⟨rfl, rfl⟩ := h; simp) | (subst h; simp)))
+  | k :: ks, c :: rest, acc => by
+    have ih := matchKeywordO_sz ks rest (c :: acc)
+    simp only [matchKeywordO]
+    split
+    · refine ⟨fun rd r h => ?_, fun rd h => ?_, fun rd c' h => ?_⟩
+      · have := ih.1 rd r h; simp at this ⊢; omega
+      · have := ih.2.1 rd h; simp at this ⊢; omega
+      · have := ih.2.2 rd c' h; simp at this ⊢; omega
+    · refine ⟨fun rd r h => (by cases h), fun rd h => (by cases h), fun rd c' h => ?_⟩
+      simp only [KwO.mismatch.injEq] at h
+      obtain ⟨rfl, rfl⟩ := h
+      simp
+
+theorem stepAtDirectiveO_B (e : End) (x : EctxO) (env : Env) {s : S} (hP : Pend s 0) (c0 : RP) (rest : List RP) :
+    StepB s (c0 :: rest) (stepAtDirectiveO e x env s c0 rest) := by
+  cases rest with
+  | nil => exact stepB_errNone _ _ _
+  | cons r1 rest1 =>
+    simp only [stepAtDirectiveO]
+    split
+    · have hk := matchKwO_sz (kwExact "ase") rest1 []
+      cases hm : matchKwO (kwExact "ase") rest1 [] with
+      | eoi rd =>
+        have := hk.2.1 _ hm; simp at this
+        have hd := size_dropLast_le (r1 :: rd); simp only [size_cons] at hd
+        err_tac hP
+      | mismatch rd c => have := hk.2.2 _ _ hm; simp at this; err_tac hP
+      | ok rd r => have := hk.1 _ _ hm; simp at this; ok_tac hP s
+    · split
+      · have hk := matchKwO_sz (kwExact "refix") rest1 []
+        cases hm : matchKwO (kwExact "refix") rest1 [] with
+        | eoi rd =>
+        have := hk.2.1 _ hm; simp at this
+        have hd := size_dropLast_le (r1 :: rd); simp only [size_cons] at hd
+        err_tac hP
+        | mismatch rd c => have := hk.2.2 _ _ hm; simp at this; err_tac hP
+        | ok rd r => have := hk.1 _ _ hm; simp at this; ok_tac hP s
+      · err_tac hP
+
+theorem stepKwBaseO_B (C : CfgO) (e : End) (x : EctxO) (env : Env) {s : S} (hP : Pend s 0) (c : RP)
+    (rest : List RP) : StepB s (c :: rest) (stepKwBaseO C e x env s c rest) := by
+  simp only [stepKwBaseO]
+  have hk := matchKwO_sz (kwCI "ASE") rest []
+  cases hm : matchKwO (kwCI "ASE") rest [] with
+  | eoi rd => have := hk.2.1 _ hm; simp at this; err_tac hP
+  | mismatch rd c' => exact kwFallbackO_B C e x env hP _
+  | ok rd r =>
+    have := hk.1 _ _ hm; simp at this
+    cases r with
+    | nil => simp at this; err_tac hP
+    | cons r4 rest4 =>
+      simp only [size_cons] at this
+      simp only []
+      split
+      · ok_tac hP s
+      · split
+        · exact kwFallbackO_B C e x env hP _
+        · ok_tac hP s
+
+theorem stepKwSpaceO_B (C : CfgO) (e : End) (x : EctxO) (env : Env) {s : S} (hP : Pend s 0)
+    (kw : List (Nat × Nat)) (k : Cont) (c : RP) (rest : List RP) :
+    StepB s (c :: rest) (stepKwSpaceO C e x env s kw k c rest) := by
+  simp only [stepKwSpaceO]
+  have hk := matchKwO_sz kw rest []
+  cases hm : matchKwO kw rest [] with
+  | eoi rd => have := hk.2.1 _ hm; simp at this; err_tac hP
+  | mismatch rd c' => exact kwFallbackO_B C e x env hP _
+  | ok rd r =>
+    have := hk.1 _ _ hm; simp at this
+    cases r with
+    | nil => simp at this; err_tac hP
+    | cons r6 rest6 =>
+      simp only [size_cons] at this
+      simp only []
+      split
+      · exact kwFallbackO_B C e x env hP _
+      · ok_tac hP s
+
+theorem stepSubjectStartO_B (C : CfgO) (e : End) (x : EctxO) (env : Env) {s : S} (hP : Pend s 0) (c : RP)
+    (rest : List RP) : StepB s (c :: rest) (stepSubjectStartO C e x env s c rest) := by
+  simp only [stepSubjectStartO]
+  split
+  · split
+    · exact labelOrSubjectO_B x (termIRIREFO_B C e env hP _)
+    · ok_tac hP s
+  · split
+    · split
+      · exact labelOrSubjectO_B x (termBNodeO_B C e env hP _)
+      · ok_tac hP s
+    · split
+      · split
+        · ok_tac hP s
+        · ok_tac hP s
+      · split
+        · ok_tac hP s
+        · split
+          · split
+            · exact labelOrSubjectO_B x (termPNameO_B C e env hP _)
+            · ok_tac hP s
+          · err_tac hP
+
+theorem stepStatementRuneO_B (C : CfgO) (e : End) (x : EctxO) (env : Env) {s : S} (hP : Pend s 0) (c : RP)
+    (rest : List RP) : StepB s (c :: rest) (stepStatementRuneO C e x env s c rest) := by
+  simp only [stepStatementRuneO]
+  split
+  · exact stepAtDirectiveO_B e x env hP c rest
+  · split
+    · exact stepKwBaseO_B C e x env hP c rest
+    · split
+      · exact stepKwSpaceO_B C e x env hP _ _ c rest
+      · split
+        · exact stepKwSpaceO_B C e x env hP _ _ c rest
+        · split
+          · exact stepWrappedGraphO_B C.dbl e x env hP c rest
+          · exact stepSubjectStartO_B C e x env hP c rest
+
+theorem stepCollectionO_B (x : EctxO) (env : Env) {s : S} (hP : Pend s 0) (c : RP) (rest : List RP) (o : T)
+    (org : Rg) : StepB s (c :: rest) (stepCollectionO x env s c rest o org) := by
+  simp only [stepCollectionO]
+  split
+  · ok_tac hP s
+  · cases x.x.subj with
+    | none => ok_tac hP s
+    | some _ => ok_tac hP s
+
+theorem stepPOLO_B (C : CfgO) (e : End) (x : EctxO) (env : Env) {s : S} (hP : Pend s 0) (c : RP)
+    (rest : List RP) : StepB s (c :: rest) (stepPOLO C e x env s c rest) := by
+  simp only [stepPOLO]
+  split
+  · exact polOfTermO_B x (termIRIREFO_B C e env hP _)
+  · split
+    · cases rest with
+      | nil => err_tac hP
+      | cons r1 rest1 =>
+        simp only []
+        split
+        · exact polOfTermO_B x (termPNameO_B C e env hP _)
+        · ok_tac hP s
+    · split
+      · exact polOfTermO_B x (termPNameO_B C e env hP _)
+      · ok_tac hP s
+
+theorem stepLiteralTailO_B (C : CfgO) (e : End) (x : EctxO) (env : Env) (lex : List Nat) (lrg : Rg) {s : S}
+    (hP : Pend s 0) (rest : List RP) : StepB s rest (stepLiteralTailO C e x env lex lrg s rest) := by
+  cases rest with
+  | nil => err_tac hP
+  | cons c rest0 =>
+    simp only [stepLiteralTailO]
+    split
+    · obtain ⟨h1, h2⟩ := langtag_ROB e hP (c :: rest0)
+      cases hp' : TtlO.produceLANGTAG e s (c :: rest0) with
+      | panic => exact stepB_panic _ _
+      | err k o => exact stepB_err (h2 _ _ hp')
+      | ok tag rg' s' r =>
+        obtain ⟨g1, g2, _⟩ := h1 _ _ _ _ hp'
+        exact stepB_ok g1 g2
+    · split
+      · cases rest0 with
+        | nil => err_tac hP
+        | cons c1 rest1 =>
+          simp only []
+          split
+          · err_tac hP
+          · cases rest1 with
+            | nil => err_tac hP
+            | cons c2 rest2 =>
+              simp only []
+              have hP3 : Pend (((s.read c).read c1).commit [c, c1]) 0 := by pend_tac hP s
+              have hI : IriB (((s.read c).read c1).commit [c, c1]) (c2 :: rest2)
+                  (if c2.1 = 0x3c then iriIRIREFO C e env (((s.read c).read c1).commit [c, c1]) (c2 :: rest2)
+                   else iriPNameO C e env (((s.read c).read c1).commit [c, c1]) (c2 :: rest2)) := by
+                split
+                · exact iriIRIREFO_B C e env hP3 _
+                · exact iriPNameO_B C e env hP3 _
+              generalize (if c2.1 = 0x3c then iriIRIREFO C e env (((s.read c).read c1).commit [c, c1]) (c2 :: rest2)
+                   else iriPNameO C e env (((s.read c).read c1).commit [c, c1]) (c2 :: rest2)) = tr at hI
+              cases tr with
+              | panic => exact stepB_panic _ _
+              | err k o =>
+                have := hI.2 _ _ rfl
+                exact stepB_err (by simp at this ⊢; omega)
+              | ok dt rg' s' r =>
+                obtain ⟨g1, g2⟩ := hI.1 _ _ _ _ rfl
+                simp only []
+                split
+                · exact stepB_errNone _ _ _
+                · exact stepB_ok (by simp at g1 ⊢; omega) g2
+      · ok_tac hP s
+
+theorem emitOfNumericO_B {s : S} {inp : List RP} (x : EctxO) (env : Env)
+    {r : TtlO.RO (Ttl.NumKind × List Nat)} (ht : ROB s inp r) : StepB s inp (emitOfNumericO x env r) := by
+  cases r with
+  | err c o => exact stepB_err (ht.2 _ _ rfl)
+  | panic => exact stepB_panic _ _
+  | ok v rg s' rest =>
+    obtain ⟨k, l⟩ := v
+    obtain ⟨g1, g2, _⟩ := ht.1 _ _ _ _ rfl
+    exact stepB_ok g1 g2
+
+theorem scanBooleanO_sz (inp : List RP) :
+    (∀ b rd r, scanBooleanO inp = .bool b rd r → ∃ c, inp.head? = some c ∧ c.2 + size rd + size r = size inp) ∧
+    (∀ rd, scanBooleanO inp = .err rd → ∃ c, inp.head? = some c ∧ c.2 + size rd = size inp ∨ inp = []) := by
+  cases inp with
+  | nil => exact ⟨fun _ _ _ h => (by simp [scanBooleanO] at h), fun _ _ => ⟨(0, 0), Or.inr rfl⟩⟩
+  | cons c rest =>
+    simp only [scanBooleanO]
+    have h1 := matchKeywordO_sz (asc "rue") rest []
+    have h2 := matchKeywordO_sz (asc "alse") rest []
+    split
+    · cases hm : matchKeywordO (asc "rue") rest [] with
+      | ok rd r =>
+        have := h1.1 _ _ hm
+        exact ⟨fun _ _ _ h => (by cases h; exact ⟨c, rfl, by simp at this ⊢; omega⟩), fun _ h => (by cases h)⟩
+      | mismatch _ _ => exact ⟨fun _ _ _ h => (by cases h), fun _ h => (by cases h)⟩
+      | eoi rd =>
+        have := h1.2.1 _ hm
+        exact ⟨fun _ _ _ h => (by cases h), fun _ h => (by cases h; exact ⟨c, Or.inl ⟨rfl, by simp at this ⊢; omega⟩⟩)⟩
+    · split
+      · cases hm : matchKeywordO (asc "alse") rest [] with
+        | ok rd r =>
+          have := h2.1 _ _ hm
+          exact ⟨fun _ _ _ h => (by cases h; exact ⟨c, rfl, by simp at this ⊢; omega⟩), fun _ h => (by cases h)⟩
+        | mismatch _ _ => exact ⟨fun _ _ _ h => (by cases h), fun _ h => (by cases h)⟩
+        | eoi rd =>
+          have := h2.2.1 _ hm
+          exact ⟨fun _ _ _ h => (by cases h), fun _ h => (by cases h; exact ⟨c, Or.inl ⟨rfl, by simp at this ⊢; omega⟩⟩)⟩
+      · exact ⟨fun _ _ _ h => (by cases h), fun _ h => (by cases h)⟩
+
+theorem stepObjectO_B (C : CfgO) (e : End) (x : EctxO) (env : Env) {s : S} (hP : Pend s 0) (c : RP)
+    (rest : List RP) : StepB s (c :: rest) (stepObjectO C e x env s c rest) := by
+  simp only [stepObjectO]
+  split
+  · exact emitOfTermO_B x (termIRIREFO_B C e env hP _)
+  · split
+    · exact emitOfTermO_B x (termBNodeO_B C e env hP _)
+    · split
+      · ok_tac hP s
+      · split
+        · ok_tac hP s
+        · split
+          · obtain ⟨h1, h2⟩ := string_ROB C.T e hP (c :: rest)
+            cases hp' : TtlO.produceString C.T e false s (c :: rest) with
+            | panic => exact stepB_panic _ _
+            | err k o => exact stepB_err (h2 _ _ hp')
+            | ok lex lrg s' r =>
+              obtain ⟨g1, g2, _⟩ := h1 _ _ _ _ hp'
+              have := stepLiteralTailO_B C e x env lex lrg g2 r
+              exact ⟨fun o ho => (by obtain ⟨k1, k2⟩ := this.1 o ho; exact ⟨by omega, k2⟩),
+                fun k eo ho => (by have := this.2 k eo ho; omega)⟩
+          · split
+            · split
+              · cases rest with
+                | nil => err_tac hP
+                | cons r1 rest1 =>
+                  simp only []
+                  split
+                  · err_tac hP
+                  · exact emitOfNumericO_B x env (numeric_ROB e hP _)
+              · exact emitOfNumericO_B x env (numeric_ROB e hP _)
+            · split
+              · have hb := scanBooleanO_sz (c :: rest)
+                cases hq : scanBooleanO (c :: rest) with
+                | err rd =>
+                  obtain ⟨c', hc⟩ := hb.2 _ hq
+                  simp at hc
+                  obtain ⟨rfl, hc⟩ := hc
+                  err_tac hP
+                | other => ok_tac hP s
+                | bool b rd r =>
+                  obtain ⟨c', hc1, hc2⟩ := hb.1 _ _ _ hq
+                  simp at hc1 hc2
+                  subst hc1
+                  ok_tac hP s
+              · split
+                · ok_tac hP s
+                · err_tac hP
+
+theorem stepTriplesO_B (C : CfgO) (x : EctxO) (env : Env) {s : S} (hP : Pend s 0) (c : RP) (rest : List RP) :
+    StepB s (c :: rest) (stepTriplesO C x env s c rest) := by
+  simp only [stepTriplesO]
+  split
+  · ok_tac hP s
+  · split
+    · ok_tac hP s
+    · split
+      · ok_tac hP s
+      · split
+        · ok_tac hP s
+        · split
+          · ok_tac hP s
+          · err_tac hP
+
+theorem stepParenO_B (top : Bool) (x : EctxO) (env : Env) (bn : T) (rg : Rg) {s : S} (hP : Pend s 0) (a : ArgO) :
+    StepB s (argInp a) (stepParenO top x env bn rg s a) := by
+  rw [← orNul_argInp]
+  simp only [stepParenO]
+  split
+  · ok_tac hP s
+  · ok_tac hP s
+
+theorem iriDirective_B (C : CfgO) (e : End) (env : Env) {s : S} (hP : Pend s 0) (inp : List RP)
+    (f : List Nat → S → List RP → FnResO)
+    (hf : ∀ b s' r, ∃ o, f b s' r = .ok o ∧ o.s = s' ∧ o.inp = r) :
+    StepB s inp (match TtlO.produceIRIREF C.T e s inp with
+      | .panic => FnResO.panic
+      | .err t o => .err (ofTok t) o
+      | .ok v rg s' r =>
+        match resolveURL C.base env v with
+        | none => .err .resolve (rangeErr rg)
+        | some b => f b s' r) := by
+  obtain ⟨h1, h2⟩ := iriref_ROB C.T e hP inp
+  cases hp : TtlO.produceIRIREF C.T e s inp with
+  | panic => exact stepB_panic _ _
+  | err t o => exact stepB_err (h2 _ _ hp)
+  | ok v rg s' r =>
+    obtain ⟨g1, g2, g3⟩ := h1 _ _ _ _ hp
+    simp only []
+    cases resolveURL C.base env v with
+    | none => exact stepB_err g3
+    | some b =>
+      obtain ⟨o, k1, k2, k3⟩ := hf b s' r
+      simp only []
+      rw [k1]
+      exact stepB_ok (by rw [k2, k3]; exact g1) (by rw [k2]; exact g2)
+
+theorem pnameNSDirective_B (C : CfgO) (e : End) {s : S} (hP : Pend s 0) (inp : List RP)
+    (f : List Nat → S → List RP → FnResO)
+    (hf : ∀ b s' r, ∃ o, f b s' r = .ok o ∧ o.s = s' ∧ o.inp = r) :
+    StepB s inp (match TtlO.producePNAME_NS C.T e C.trig s inp with
+      | .panic => FnResO.panic
+      | .err t o => .err (ofTok t) o
+      | .ok ns _ s' r => f ns s' r) := by
+  obtain ⟨h1, h2⟩ := pnameNS_ROB C.T e C.trig hP inp
+  cases hp : TtlO.producePNAME_NS C.T e C.trig s inp with
+  | panic => exact stepB_panic _ _
+  | err t o => exact stepB_err (h2 _ _ hp)
+  | ok v rg s' r =>
+    obtain ⟨g1, g2, _⟩ := h1 _ _ _ _ hp
+    obtain ⟨o, k1, k2, k3⟩ := hf v s' r
+    simp only []
+    rw [k1]
+    exact stepB_ok (by rw [k2, k3]; exact g1) (by rw [k2]; exact g2)
+
+theorem stepFnO_B (C : CfgO) (e : End) (k : Cont) (r : Rg) (x : EctxO) (env : Env) {s : S} (hP : Pend s 0)
+    (a : ArgO) (hna : ¬(k = .statement ∧ a = .fail)) :
+    StepB s (argInp a) (stepFnO C e k r x env s a) := by
+  cases k with
+  | statement =>
+    cases a with
+    | fail => exact absurd ⟨rfl, rfl⟩ hna
+    | rune c rest =>
+      simp only [stepFnO, argInp]
+      exact withSelfO_B x (stepStatementRuneO_B C e x env hP c rest)
+  | atBaseIRI =>
+    cases a with
+    | fail => exact stepB_errNone _ _ _
+    | rune c rest =>
+      simp only [stepFnO, argInp]
+      exact iriDirective_B C e env hP _ _ (fun _ _ _ => ⟨_, rfl, rfl, rfl⟩)
+  | sparqlBaseIRI =>
+    cases a with
+    | fail => exact stepB_errNone _ _ _
+    | rune c rest =>
+      simp only [stepFnO, argInp]
+      exact iriDirective_B C e env hP _ _ (fun _ _ _ => ⟨_, rfl, rfl, rfl⟩)
+  | atBaseDot b =>
+    cases a with
+    | fail => simp only [stepFnO, argInp]; err_tac hP
+    | rune c rest =>
+      simp only [stepFnO, argInp]
+      split
+      · err_tac hP
+      · ok_tac hP s
+  | atPrefixNS =>
+    cases a with
+    | fail => exact stepB_errNone _ _ _
+    | rune c rest =>
+      simp only [stepFnO, argInp]
+      exact pnameNSDirective_B C e hP _ _ (fun _ _ _ => ⟨_, rfl, rfl, rfl⟩)
+  | sparqlPrefixNS =>
+    cases a with
+    | fail => exact stepB_errNone _ _ _
+    | rune c rest =>
+      simp only [stepFnO, argInp]
+      exact pnameNSDirective_B C e hP _ _ (fun _ _ _ => ⟨_, rfl, rfl, rfl⟩)
+  | atPrefixIRI ns =>
+    cases a with
+    | fail => exact stepB_errNone _ _ _
+    | rune c rest =>
+      simp only [stepFnO, argInp]
+      exact iriDirective_B C e env hP _ _ (fun _ _ _ => ⟨_, rfl, rfl, rfl⟩)
+  | sparqlPrefixIRI ns =>
+    cases a with
+    | fail => exact stepB_errNone _ _ _
+    | rune c rest =>
+      simp only [stepFnO, argInp]
+      exact iriDirective_B C e env hP _ _ (fun _ _ _ => ⟨_, rfl, rfl, rfl⟩)
+  | atPrefixDot ns b =>
+    cases a with
+    | fail => simp only [stepFnO, argInp]; err_tac hP
+    | rune c rest =>
+      simp only [stepFnO, argInp]
+      split
+      · err_tac hP
+      · ok_tac hP s
+  | subjAnonOrBNPL =>
+    cases a with
+    | fail => exact stepB_errNone _ _ _
+    | rune c rest =>
+      simp only [stepFnO, argInp]
+      split
+      · ok_tac hP s
+      · ok_tac hP s
+  | triplesEnd =>
+    cases a with
+    | fail => simp only [stepFnO, argInp]; err_tac hP
+    | rune c rest =>
+      simp only [stepFnO, argInp]
+      split
+      · ok_tac hP s
+      · split
+        · err_tac hP
+        · err_tac hP
+  | subjIRIREF =>
+    cases a with
+    | fail => exact stepB_errNone _ _ _
+    | rune c rest => simp only [stepFnO, argInp]; exact subjectOfO_B x (termIRIREFO_B C e env hP _)
+  | subjPName =>
+    cases a with
+    | fail => exact stepB_errNone _ _ _
+    | rune c rest => simp only [stepFnO, argInp]; exact subjectOfO_B x (termPNameO_B C e env hP _)
+  | subjBNode =>
+    cases a with
+    | fail => exact stepB_errNone _ _ _
+    | rune c rest => simp only [stepFnO, argInp]; exact subjectOfO_B x (termBNodeO_B C e env hP _)
+  | pol =>
+    cases a with
+    | fail => simp only [stepFnO, argInp]; err_tac hP
+    | rune c rest => simp only [stepFnO, argInp]; exact stepPOLO_B C e x env hP c rest
+  | polContinue =>
+    cases a with
+    | fail => simp only [stepFnO, argInp]; err_tac hP
+    | rune c rest =>
+      simp only [stepFnO, argInp]
+      split
+      · ok_tac hP s
+      · ok_tac hP s
+  | polRequired =>
+    cases a with
+    | fail => simp only [stepFnO, argInp]; err_tac hP
+    | rune c rest =>
+      simp only [stepFnO, argInp]
+      have := stepPOLO_B C e x env hP c rest
+      cases hq : stepPOLO C e x env s c rest with
+      | panic => exact stepB_panic _ _
+      | err k o => rw [hq] at this; exact this
+      | ok o =>
+        rw [hq] at this
+        simp only []
+        split
+        · err_tac hP
+        · exact this
+  | objListContinue =>
+    cases a with
+    | fail => simp only [stepFnO, argInp]; err_tac hP
+    | rune c rest =>
+      simp only [stepFnO, argInp]
+      split
+      · ok_tac hP s
+      · ok_tac hP s
+  | object =>
+    cases a with
+    | fail => simp only [stepFnO, argInp]; err_tac hP
+    | rune c rest => simp only [stepFnO, argInp]; exact stepObjectO_B C e x env hP c rest
+  | objectPName =>
+    cases a with
+    | fail => exact stepB_errNone _ _ _
+    | rune c rest => simp only [stepFnO, argInp]; exact emitOfTermO_B x (termPNameO_B C e env hP _)
+  | collOpenObj =>
+    cases a with
+    | fail => exact stepB_errNone _ _ _
+    | rune c rest => simp only [stepFnO, argInp]; exact stepCollectionO_B x _ hP c rest _ r
+  | collOpenSubj o =>
+    simp only [stepFnO]
+    rw [← orNul_argInp]
+    exact stepCollectionO_B x _ hP _ _ _ r
+  | collContinue =>
+    cases a with
+    | fail => simp only [stepFnO, argInp]; err_tac hP
+    | rune c rest =>
+      simp only [stepFnO, argInp]
+      split
+      · ok_tac hP s
+      · ok_tac hP s
+  | bnplEnd =>
+    cases a with
+    | fail => simp only [stepFnO, argInp]; err_tac hP
+    | rune c rest =>
+      simp only [stepFnO, argInp]
+      split
+      · ok_tac hP s
+      · err_tac hP
+  | parenTop bn => exact stepParenO_B true x env bn r hP a
+  | parenBlock bn => exact stepParenO_B false x env bn r hP a
+  | graphLabel =>
+    cases a with
+    | fail => exact stepB_errNone _ _ _
+    | rune c rest =>
+      simp only [stepFnO, argInp]
+      split
+      · ok_tac hP s
+      · have hT : TermB s (c :: rest) (if c.1 = 0x5f then termBNodeO C e env s (c :: rest)
+              else if c.1 = 0x3c then termIRIREFO C e env s (c :: rest) else termPNameO C e env s (c :: rest)) := by
+          split
+          · exact termBNodeO_B C e env hP _
+          · split
+            · exact termIRIREFO_B C e env hP _
+            · exact termPNameO_B C e env hP _
+        generalize (if c.1 = 0x5f then termBNodeO C e env s (c :: rest)
+              else if c.1 = 0x3c then termIRIREFO C e env s (c :: rest) else termPNameO C e env s (c :: rest)) = tr at hT
+        cases tr with
+        | panic => exact stepB_panic _ _
+        | err t o => exact stepB_err (hT.2 _ _ rfl)
+        | ok g rg s' rr env' =>
+          obtain ⟨g1, g2⟩ := hT.1 _ _ _ _ _ rfl
+          exact stepB_ok g1 g2
+  | graphAnonClose =>
+    simp only [stepFnO]
+    rw [← orNul_argInp]
+    split
+    · err_tac hP
+    · ok_tac hP s
+  | wrappedGraph =>
+    cases a with
+    | fail => exact stepB_errNone _ _ _
+    | rune c rest => exact stepWrappedGraphO_B C.dbl e x env hP c rest
+  | wrappedGraphEnd =>
+    cases a with
+    | fail => exact stepB_errNone _ _ _
+    | rune c rest =>
+      simp only [stepFnO, argInp]
+      split
+      · err_tac hP
+      · ok_tac hP s
+  | triplesBlock =>
+    cases a with
+    | fail => exact stepB_errNone _ _ _
+    | rune c rest =>
+      simp only [stepFnO, argInp]
+      split
+      · ok_tac hP s
+      · ok_tac hP s
+  | triplesBlockQuest =>
+    cases a with
+    | fail => exact stepB_errNone _ _ _
+    | rune c rest =>
+      simp only [stepFnO, argInp]
+      split
+      · ok_tac hP s
+      · split
+        · ok_tac hP s
+        · ok_tac hP s
+  | triples =>
+    cases a with
+    | fail => exact stepB_errNone _ _ _
+    | rune c rest => simp only [stepFnO, argInp]; exact stepTriplesO_B C x env hP c rest
+  | tgE1 v =>
+    simp only [stepFnO]
+    rw [← orNul_argInp]
+    split
+    · ok_tac hP s
+    · cases v with
+      | lit l d t => exact stepB_panic _ _
+      | iri i => ok_tac hP s
+      | bnode b => ok_tac hP s
+  | tgBracket bn =>
+    simp only [stepFnO]
+    rw [← orNul_argInp]
+    split
+    · ok_tac hP s
+    · ok_tac hP s
+  | triples2BNPL =>
+    cases a with
+    | fail => exact stepB_errNone _ _ _
+    | rune c rest =>
+      simp only [stepFnO, argInp]
+      split
+      · ok_tac hP s
+      · ok_tac hP s
+
+/-! ### scan, Next, run -/
+
+def SkipB (s : S) (_unc : Chunk) (inp : List RP) : SkipO → Prop
+  | .rune s' c rest => s'.bo + size (c :: rest) = s.bo + size inp ∧ Pend s' 0
+  | .end_ s' => s'.bo = s.bo + size inp ∧ Pend s' 0
+  | .commentIo => True
+
+theorem skipWsO_B (C : CfgO) (e : End) : ∀ (inp : List RP) (b : Bool) (s : S) (unc : Chunk),
+    Pend s (size unc) → SkipB s unc inp (skipWsO C e b s inp unc)
+  | [], false, s, unc, hP => ⟨by simp, fun h hh => by have := hP h hh; omega⟩
+  | [], true, s, unc, hP => by
+    cases e
+    · refine ⟨by simp, ?_⟩
+      intro hh hd
+      simp only [S.commit] at hd
+      cases hs : s.doc with
+      | none => simp [hs] at hd
+      | some d =>
+        have := hP d hs
+        simp only [hs, Option.map_some, Option.some.injEq] at hd
+        subst hd
+        simp [histRunes]; omega
+    · trivial
+  | c :: rest, true, s, unc, hP => by
+    have hP' : Pend (s.read c) (size (c :: unc)) := by
+      intro h hh; have := hP h (by simpa using hh); simp; omega
+    simp only [skipWsO]
+    split
+    · have := skipWsO_B C e rest false (s.read c) (c :: unc) hP'
+      revert this
+      cases skipWsO C e false (s.read c) rest (c :: unc) <;> simp [SkipB] <;> intros <;> (try constructor) <;>
+        first | assumption | omega
+    · have := skipWsO_B C e rest true (s.read c) (c :: unc) hP'
+      revert this
+      cases skipWsO C e true (s.read c) rest (c :: unc) <;> simp [SkipB] <;> intros <;> (try constructor) <;>
+        first | assumption | omega
+  | c :: rest, false, s, unc, hP => by
+    have hP' : Pend (s.read c) (size (c :: unc)) := by
+      intro h hh; have := hP h (by simpa using hh); simp; omega
+    simp only [skipWsO]
+    split
+    · have := skipWsO_B C e rest true (s.read c) (c :: unc) hP'
+      revert this
+      cases skipWsO C e true (s.read c) rest (c :: unc) <;> simp [SkipB] <;> intros <;> (try constructor) <;>
+        first | assumption | omega
+    · split
+      · have := skipWsO_B C e rest false (s.read c) (c :: unc) hP'
+        revert this
+        cases skipWsO C e false (s.read c) rest (c :: unc) <;> simp [SkipB] <;> intros <;> (try constructor) <;>
+          first | assumption | omega
+      · refine ⟨by simp, ?_⟩
+        intro hh hd
+        simp only [S.commit] at hd
+        cases hs : s.doc with
+        | none => simp [hs] at hd
+        | some d =>
+          have := hP d hs
+          simp only [hs, Option.map_some, Option.some.injEq] at hd
+          subst hd
+          simp [histRunes]; omega
+
+theorem scanFnO_B (C : CfgO) (e : End) (f : FrameO) (rest : List RP) (env : Env) (s : S) (n : Nat)
+    (hb : s.bo + size rest = n) (hP : Pend s 0) :
+    StepB s rest (scanFnO C e f rest env s) := by
+  have hsk := skipWsO_B C e rest false s [] (by simpa using hP)
+  unfold scanFnO
+  cases hq : skipWsO C e false s rest [] with
+  | commentIo => exact stepB_errNone _ _ _
+  | end_ s' =>
+    rw [hq] at hsk
+    obtain ⟨h1, h2⟩ := hsk
+    simp only []
+    by_cases hk : f.k = .statement
+    · rw [hk]
+      cases e with
+      | ioerr => exact stepB_errNone _ _ _
+      | eof => exact stepB_ok (by simp [h1]) h2
+    · have := stepFnO_B C e f.k f.r f.x env h2 .fail (by intro h; exact hk h.1)
+      exact ⟨fun o ho => (by obtain ⟨k1, k2⟩ := this.1 o ho; simp [argInp] at k1; exact ⟨by omega, k2⟩),
+        fun k eo ho => (by have := this.2 k eo ho; simp [argInp] at this; omega)⟩
+  | rune s' c rest' =>
+    rw [hq] at hsk
+    obtain ⟨h1, h2⟩ := hsk
+    simp only []
+    have := stepFnO_B C e f.k f.r f.x env h2 (.rune c rest') (by intro h; cases h.2)
+    exact ⟨fun o ho => (by obtain ⟨k1, k2⟩ := this.1 o ho; simp [argInp] at k1 h1; exact ⟨by omega, k2⟩),
+      fun k eo ho => (by have := this.2 k eo ho; simp [argInp] at this h1; omega)⟩
+
+/-- byte accounting of the decoder object for a document of `n` bytes: the rune buffer's offset plus
+    the bytes still unread is `n`; the writer holds at most what the buffer handed out; the offset of a
+    recorded error is at most `n` -/
+def BInv (n : Nat) (st : StO) : Prop :=
+  st.s.bo + size st.inp = n ∧ Pend st.s 0 ∧ ∀ k o, st.err = some (k, o) → EOff.bound o ≤ n
+
+def NextB (n : Nat) : NextResO → Prop
+  | .yes st => BInv n st
+  | .no st => BInv n st
+  | .panic => True
+  | .outOfFuel => True
+
+theorem nextLoopO_B (C : CfgO) (e : End) (n : Nat) : ∀ (fuel : Nat) (cur : Option FrameO) (st : StO),
+    BInv n st → NextB n (nextLoopO C e fuel cur st)
+  | 0, _, _, _ => trivial
+  | fuel + 1, cur, st, h => by
+    simp only [nextLoopO]
+    split
+    · exact h
+    · split
+      · cases cur <;> exact h
+      · cases hq : popFrameO cur st with
+        | none => exact h
+        | some p =>
+          obtain ⟨f, st1⟩ := p
+          have hp : BInv n st1 := by
+            cases cur with
+            | some g =>
+              simp only [popFrameO, Option.some.injEq, Prod.mk.injEq] at hq
+              obtain ⟨_, rfl⟩ := hq
+              exact h
+            | none =>
+              simp only [popFrameO] at hq
+              cases hs : st.stack with
+              | nil => rw [hs] at hq; cases hq
+              | cons g rest =>
+                rw [hs] at hq
+                simp only [Option.some.injEq, Prod.mk.injEq] at hq
+                obtain ⟨_, rfl⟩ := hq
+                exact h
+          simp only []
+          have hB := scanFnO_B C e f st1.inp st1.env st1.s n hp.1 hp.2.1
+          unfold scanO
+          cases hs : scanFnO C e f st1.inp st1.env st1.s with
+          | panic => trivial
+          | err k o =>
+            simp only []
+            refine nextLoopO_B C e n fuel none _ ⟨hp.1, hp.2.1, ?_⟩
+            intro k' o' hko
+            simp only [Option.some.injEq, Prod.mk.injEq] at hko
+            obtain ⟨_, rfl⟩ := hko
+            have := hB.2 k o hs
+            have hb := hp.1
+            omega
+          | ok o =>
+            simp only []
+            obtain ⟨k1, k2⟩ := hB.1 o hs
+            have hb := hp.1
+            exact nextLoopO_B C e n fuel o.cur _ ⟨by simp [applyOutO]; omega, by simpa [applyOutO] using k2,
+              by simpa [applyOutO] using hp.2.2⟩
+
+theorem nextO_B (C : CfgO) (e : End) (n : Nat) (st : StO) (h : BInv n st) : NextB n (nextO C e st) := by
+  unfold nextO
+  exact nextLoopO_B C e n _ none _ h
+
+theorem runLoopO_B (C : CfgO) (e : End) (n : Nat) : ∀ (m : Nat) (st : StO), BInv n st →
+    EOff.bound (runLoopO C e m st).eoff ≤ n
+  | 0, _, _ => Nat.zero_le _
+  | m + 1, st, h => by
+    simp only [runLoopO]
+    have hn := nextO_B C e n st h
+    cases hq : nextO C e st with
+    | panic => exact Nat.zero_le _
+    | outOfFuel => exact Nat.zero_le _
+    | no st' =>
+      rw [hq] at hn
+      simp only []
+      cases he : st'.err with
+      | none => exact Nat.zero_le _
+      | some p => obtain ⟨k, o⟩ := p; exact hn.2.2 k o he
+    | yes st' =>
+      rw [hq] at hn
+      simp only []
+      cases hs : st'.stmts with
+      | nil => exact Nat.zero_le _
+      | cons s0 ss => exact runLoopO_B C e n m st' hn
+
+theorem initO_B (capture : Bool) (base : Option (List Nat)) (prefixes : List (List Nat × List Nat))
+    (inp : List RP) : BInv (size inp) (initO capture base prefixes inp) := by
+  refine ⟨by simp [initO, S.init], ?_, fun k o h => (by cases h)⟩
+  intro h hh
+  cases capture <;> simp [initO, S.init] at hh
+  subst hh
+  simp [histRunes]
+
+end statements
 
 end RdfModel.Proofs.C16TtlDocO
